@@ -1,24 +1,31 @@
 """C08, C09: signal descriptors (pkg/descriptor/signal.go; physical setter of internal/generate/file.go).
 DESIGN.md 5.8, 5.9."""
+import re
+
 import vlib
 
 _NOTE08 = ("Trusted: Coq 8.16.1 kernel; extraction (ExtrOcamlBasic) + OCaml 4.13.1; the hand-written models "
            "Descriptor/Signal.v (on top of Can/Data.v) and, for float signals, Descriptor/Physical.v, validated against the "
            "code by the correspondence run; Go harness / OCaml driver / check.py glue. Print Assumptions: closed under "
            "the global context for the integer theorems; the float32 theorems depend on the standard-library real-number "
-           "axioms that Flocq inherits (ClassicalDedekindReals.sig_forall_dec, sig_not_dec, "
-           "FunctionalExtensionality.functional_extensionality_dep). NaN payloads are not modelled (both sides "
+           "axioms that Flocq inherits (Classical_Prop.classic, ClassicalDedekindReals.sig_forall_dec, sig_not_dec, "
+           "FunctionalExtensionality.functional_extensionality_dep; all Coq standard library). NaN payloads are not modelled (both sides "
            "canonicalise NaN); little-endian host assumed for the unsafe float32 reinterpretation (amd64).")
 
-_NOTE09 = ("Trusted: Coq 8.16.1 kernel; Flocq 4.1 (IEEE-754 binary64 formalisation; brings the standard-library "
-           "real-number axioms sig_forall_dec, sig_not_dec, functional_extensionality_dep and nothing else); extraction + "
+_NOTE09 = ("Trusted: Coq 8.16.1 kernel; Flocq 4.1 (IEEE-754 binary64 formalisation). Print Assumptions reports "
+           "Classical_Prop.classic and the three real-number axioms ClassicalDedekindReals.sig_forall_dec, "
+           "ClassicalDedekindReals.sig_not_dec, FunctionalExtensionality.functional_extensionality_dep (all Coq standard "
+           "library, all reached through Flocq's own lemmas such as binary_normalize_correct and round_le) and nothing else; extraction + "
            "OCaml; the hand-written model Descriptor/Physical.v (every operation one round-to-nearest-even IEEE operation, "
            "math.Max/Min special cases as in Go's dim.go), validated against the code on every run; glue. Hardware "
            "assumption: amd64, no fused multiply-add in raw*scale+offset. The generated setter's float->integer conversion "
            "is modelled as truncation and proved to stay inside the raw range (where Go defines it). The clause 'error below "
            "one factor step' of the physical round trip is false for exact reals (theorem C09_roundtrip_physical_refuted: "
            "scale 0.1, offset -40, p = -39.6 comes back 1+1.4e-14 steps away); what is proved and checked is the bound of "
-           "two steps (C09_roundtrip_physical_partial); the raw round trip is proved with the bound of one step as stated.")
+           "two steps (C09_roundtrip_physical_partial); the raw round trip is proved with the bound of one step as stated. "
+           "The driver evaluates the property's own one-step clause on every in-class observation: its failures (ratio < 2) "
+           "are the known finding C09-physical-roundtrip-truncation of known_findings.json (reported once as KNOWN-FINDING, "
+           "counted in the evidence); a ratio >= 2 or any other clause is a violation.")
 
 PROPERTIES = {
     "C08": {
@@ -85,15 +92,60 @@ ASSUMPTIONS = {
 }
 
 
-def harness_args(pid, tier, seed):
+KNOWN_ID = "C09-physical-roundtrip-truncation"
+
+
+def known_c09():
+    """the `known` entry of known_findings.json for the truncating-setter round trip, or None"""
+    for k in vlib.load_known().get("known", []):
+        if k.get("property") == "C09" and k.get("id") == KNOWN_ID:
+            return k
+    return None
+
+
+def harness_args(pid, tier, seed, witness=False):
     if pid == "C08":
         return ["c08", seed] + ([2, 4] if tier == "quick" else [200, 1])   # nrand coldStep
-    # perLen nraw nphys npairs exhMax exh16
-    return ["c09", seed] + ([5, 8, 8, 20, 10, 0] if tier == "quick" else [60, 24, 24, 60, 14, 1])
+    # perLen nraw nphys npairs exhMax exh16 witness
+    return ["c09", seed] + ([5, 8, 8, 20, 10, 0] if tier == "quick" else [60, 24, 24, 60, 14, 1]) + [1 if witness else 0]
+
+
+_ONE_STEP = re.compile(r" clause=roundtrip-physical-one-step ratio=(\S+)$")
+
+
+def c09_known_matcher(res):
+    """PFAILs of the property's own one-step clause with 1 <= ratio < 2 are the listed known finding
+    (the driver reports that clause only when every other clause, incl. the proved two-step bound,
+    holds); anything else stays a violation. One identical line for all of them."""
+    def match(obs):
+        m = _ONE_STEP.search(obs)
+        if not m:
+            return None
+        try:
+            ratio = float(m.group(1))
+        except ValueError:
+            return None
+        if not (ratio < 2.0):
+            return None
+        return ("%s: physical round trip through the truncating setter exceeds one factor step "
+                "(max ratio %s over %s cases, e.g. scale=0.1 offset=-40 u16 p=-39.6 -> 1.0000000000000142 steps)"
+                % (KNOWN_ID, repr(float(res.cov.get("physical_roundtrip_max_ratio", 0.0))),
+                   res.cov.get("physical_roundtrip_over_one_step", "?")))
+    return match
 
 
 def run(res, replay=None):
     pid = res.id
     vlib.proof_stage(res)
-    vlib.standard_run(res, "descriptor", harness_args(pid, res.tier, res.seed), "descriptor", RULES[pid],
-                      ASSUMPTIONS[pid], timeout=1500 if res.tier == "quick" else 6000)
+    known = known_c09() if pid == "C09" else None
+    vlib.standard_run(res, "descriptor", harness_args(pid, res.tier, res.seed, witness=known is not None),
+                      "descriptor", RULES[pid], ASSUMPTIONS[pid],
+                      timeout=1500 if res.tier == "quick" else 6000,
+                      known_matcher=c09_known_matcher(res) if known is not None else None)
+    if pid == "C09":
+        res.cov["known_finding_listed"] = KNOWN_ID if known is not None else None
+        res.cov["one_step_clause"] = {
+            "cases_exceeding_one_step": res.cov.get("physical_roundtrip_over_one_step"),
+            "max_ratio": res.cov.get("physical_roundtrip_max_ratio"),
+            "disposition": "known finding (ratio < 2)" if known is not None else "violation",
+        }
